@@ -41,12 +41,13 @@ impl SegmentIter {
             IterDirection::Forward => offsets_index,
             IterDirection::Reverse => {
                 offsets.reverse();
-                if offsets_index == 0 && !offsets.is_empty() {
-                    0 // Start from first index after reversal (which is the last event)
-                } else if offsets_index < offsets.len() {
+                if offsets_index < offsets.len() {
+                    // Position `offsets_index` of the ascending list is position
+                    // `len - 1 - offsets_index` of the reversed one: the scan yields the elements
+                    // at or before `offsets_index`, newest first
                     offsets.len() - 1 - offsets_index
                 } else {
-                    0
+                    0 // Start from first index after reversal (which is the last event)
                 }
             }
         };
